@@ -193,10 +193,16 @@ def havoc_heap(ex, st, ws):
             if isinstance(ty, T.List):
                 ex.h.list_set_len(st, r, z3.Int(T.fresh_name("hv.len")), ty)
                 st.pc.append(ex.h.list_len(st, r, ty) >= 0)
+                n1 = ex.advance_time(st)
+                from .engine import born_before
                 for k, srt in enumerate(ty.t.sorts()):
                     key = ty.k_elem(k)
                     a = ex.h.arr(st, key, [Obj, z3.IntSort()], srt)
-                    st.heap[key] = z3.Store(a, r, z3.Const(T.fresh_name("hv.elems"), z3.ArraySort(z3.IntSort(), srt)))
+                    row = z3.Const(T.fresh_name("hv.elems"), z3.ArraySort(z3.IntSort(), srt))
+                    bb = born_before(row, n1)
+                    if bb is not None:
+                        st.born.append(bb)
+                    st.heap[key] = z3.Store(a, r, row)
                 for k in ty.ghost_sum:
                     ex.h.list_set_sum(st, ty, r, k, z3.Real(T.fresh_name("hv.sum")))
             elif isinstance(ty, T.Dict):
@@ -307,6 +313,7 @@ def _search_loop(ex, s, st, dom, ordn):
     # 1. exit condition as a formula of a symbolic index jq
     stq = st.fork()
     base_len = len(stq.pc)
+    base_conds = len(stq.conds)
     stq.pc.append(z3.And(jq >= 0, jq < dom.n))
     nobl = len(ex.obls)
     ex.assign(s.target, dom.at(jq, stq), stq, s)
@@ -332,7 +339,9 @@ def _search_loop(ex, s, st, dom, ordn):
                     fall_assigned.add(n_)
     for o in body_outs:
         if o.kind in ("break", "return", "raise"):
-            exit_conds.append(z3.And(*o.st.pc[base_len + 1:]) if len(o.st.pc) > base_len + 1 else z3.BoolVal(True))
+            # only the branch decisions taken inside the iteration (assumptions added on the way are not conditions)
+            cs_ = o.st.conds[base_conds:]
+            exit_conds.append(z3.And(*cs_) if cs_ else z3.BoolVal(True))
     E = z3.Or(*exit_conds) if exit_conds else z3.BoolVal(False)
 
     def no_exit_before(bound):
@@ -342,6 +351,7 @@ def _search_loop(ex, s, st, dom, ordn):
     st1 = st.fork()
     st1.pc.append(z3.And(i0 >= 0, i0 < dom.n))
     st1.pc.append(no_exit_before(i0))
+    st1.conds.append(z3.And(i0 >= 0, i0 < dom.n, no_exit_before(i0)))
     if ex.feasible(st1.pc):
         st1.trace.append(f"L{ordn}@")
         mark = len(ex.obls)
@@ -360,6 +370,7 @@ def _search_loop(ex, s, st, dom, ordn):
     # 3. not found: loop runs to completion without effect
     st2 = st.fork()
     st2.pc.append(no_exit_before(dom.n))
+    st2.conds.append(no_exit_before(dom.n))
     if ex.feasible(st2.pc):
         st2.trace.append(f"L{ordn}-")
         for n in (temps & fall_assigned):
@@ -456,6 +467,11 @@ def _havoc_locals(ex, st, names, spec):
         if cur is not None and cur.cint or ex.ctypes.get(n) == "int":
             v.cint = True
         st.env[n] = v
+        # a reference held in a local after unknown iterations denotes an object that already exists
+        from .engine import BIRTH
+        for t_ in v.terms:
+            if t_.sort() == Obj:
+                st.pc.append(BIRTH(t_) < st.now)
 
 
 def _havoc_loop(ex, s, st, dom, ordn):
@@ -568,6 +584,7 @@ def exec_while(ex, s: ast.While, st):
     c1 = ex.truthy(st1, ex.ev(s.test, st1))
     st1b = st1.fork()
     st1b.pc.append(c1)
+    st1b.conds.append(c1)
     if ex.feasible(st1b.pc):
         st1b.trace.append(f"W{ordn}*")
         dec0 = None
@@ -593,6 +610,7 @@ def exec_while(ex, s: ast.While, st):
     # exit
     st2 = st1.fork()
     st2.pc.append(z3.Not(c1))
+    st2.conds.append(z3.Not(c1))
     if ex.feasible(st2.pc):
         st2.trace.append(f"W{ordn}.")
         if s.orelse:
